@@ -59,6 +59,21 @@ def main(tier='quick'):
         for mid in mids[:6]:
             plan = [('store', rng.choice([7, 9]), rng.choice(K.MIDS), 1) for _ in range(3)]
             add(K.run_get_scu(rng, mid, 1, plan, [0, 'EHE', 0xB000], pol), {'svc': 'qr_get_scu', 'mid': mid, 'plan': plan, 'policy': pol})
+    # the handler loop itself: several requests of one association over contexts that share an SOP class
+    n_loops = 0
+    for li in range(40 if tier == 'quick' else 600):
+        reqs = []
+        for _ in range(rng.choice([2, 3, 4, 6])):
+            kind = rng.choice(['echo', 'store'])
+            reqs.append((kind, rng.choice([1, 3] if kind == 'echo' else [5, 7]), rng.choice(mids)))
+        pair = rng.sample(['1.2.840.10008.1.2', '1.2.840.10008.1.2.1', '1.2.840.10008.1.2.2'], 2)
+        trs, extra = K.run_handler_loop(rng, reqs, pair)
+        n_loops += 1
+        for k, val in extra.items():
+            v.report({'site': 'asceprovider._loop', 'clause': k}, '%s (requests %r)' % (val, reqs), replay={'svc': 'handler_loop', 'requests': reqs, 'ts': pair})
+        for tr in trs:
+            traces.append(tr)
+            metas.append({'svc': 'handler_loop', 'requests': reqs, 'ts': pair, 'policy': 'eager'})
     res, stats = tlc.validate_traces('Trace_Services', 'Trace_Services.cfg', traces, chunk=5000)
     for tr, r, meta in zip(traces, res, metas):
         if r['ok']:
@@ -69,7 +84,7 @@ def main(tier='quick'):
                  '%s: event %d %r is not allowed by Services.tla (request %r)' % (meta['svc'], r['reached'], e, tr[0]['req']), replay=meta)
     ev = {'tier': tier, 'level': 'model_checking',
           'coverage': {'states': sum(r.distinct for r in mcs), 'transitions': sum(r.generated for r in mcs),
-                       'traces_validated_against_impl': len(traces), 'provider_callables': sorted({m['svc'] for m in metas}),
+                       'traces_validated_against_impl': len(traces), 'handler_loop_associations': n_loops, 'provider_callables': sorted({m['svc'] for m in metas}),
                        'schedules': [str(p) for p in POLICIES], 'samples': [traces[0], traces[len(traces) // 2]], 'exhaustive': False},
           'assumptions': ['documented failure statuses: echo/n-action/n-event 0110H, storage and C-GET store C000H',
                           'the sub-association of C-MOVE / N-EVENT-REPORT is a recording stub']}
